@@ -144,3 +144,16 @@ package authboss
 //@   ensures[C11] wraps_writer: each Next.ServeHTTP(_, ?w2, _) => w2 != w
 //@   ensures[C11] read_failure_500: (each CS.ReadState(_, _) -> (_, ?e) => e != nil ==> (after WriteHeader(_, 500) && !emits Next.ServeHTTP(_, _, _)))
 //@   ensures[C17] no_secret_leak: secrets_clean
+//@
+//@ -- The shipped hasher against the Hasher contract every flow relies on (C01, C06): a value
+//@ -- verifies exactly when bcrypt accepts it, and what GenerateHash returns verifies its input.
+//@ func (*bcryptHasher).CompareHashAndPassword
+//@   property C01 C06 C17
+//@   ensures[C01,C06] compare_is_bcrypt: (result == nil) <=> hash_ok(hashedPassword, password)
+//@   ensures[C17] no_secret_leak: secrets_clean
+//@
+//@ func (*bcryptHasher).GenerateHash
+//@   property C06 C17
+//@   ensures[C06] generate_is_bcrypt: result.1 == nil ==> (hash_ok(result.0, password) && len(result.0) > 0)
+//@   ensures[C06] error_returns_nothing: result.1 != nil ==> result.0 == ""
+//@   ensures[C17] no_secret_leak: secrets_clean
